@@ -2,7 +2,7 @@
    [rnd] is the representation hook of the model (see model/Rotator.v); theorems that speak about
    values are stated for every hook with rnd x == x (identity, Qred). *)
 From DF Require Import Prelude FieldK NDArray Rotate90.
-From DF Require Import Rotator C18_machine C18_geom C18_field C18_bracket C18_quarter C18_nadm C18_c12 C18_gap.
+From DF Require Import Rotator C18_machine C18_geom C18_field C18_bracket C18_quarter C18_nadm C18_c12 C18_gap Check_C18 CheckSound C18_sound.
 Open Scope Q_scope.
 
 (* clear_rotation restores the original field (and the identity rotation) after any history *)
@@ -355,3 +355,186 @@ Print Assumptions C18_rounding_step.
 Example C18_rounding_step_nonvacuous : forall y, Qabs ((fun x => x) y - y) <= 0 * Qabs y.
 Proof. intro y. cbv beta. setoid_replace (y - y) with 0 by ring. cbn. rewrite Qmult_0_l. apply Qle_refl. Qed.
 Print Assumptions C18_rounding_step_nonvacuous.
+
+(* ================= the tie, proved: soundness of the correspondence checker =================
+   A case of a shard that evaluates to true certifies that the OBSERVED output of FieldRotator is the
+   model's value on the recorded inputs.  [Check_C18.rnd] (= rnd_bits 44) is the hook the checker evaluates
+   the model with; the statements below are about the model under THAT hook, so they combine with the
+   theorems above that hold for every hook (state machine, refusal, zero fill, default resolution). *)
+
+(* refusal verdicts are compared literally *)
+Theorem C18_check_refuse_sound : forall nvdim ndim mapping accepted,
+  check_C18 (CRefuse nvdim ndim mapping accepted) = true ->
+  accepted = rotator_accepts nvdim ndim mapping.
+Proof. exact check_refuse_sound. Qed.
+Print Assumptions C18_check_refuse_sound.
+
+(* transfer of C18_refuse: the observed verdict itself *)
+Theorem C18_observed_refuse : forall nvdim ndim mapping accepted,
+  check_C18 (CRefuse nvdim ndim mapping accepted) = true ->
+  (accepted = true <->
+   ndim = 3%nat /\
+   (nvdim = 1%nat \/
+    (nvdim = 3%nat /\ (forall m, In m mapping -> m <> None) /\ exists perm, ordered_idx mapping = Some perm))).
+Proof. exact accepted_refuse_iff. Qed.
+Print Assumptions C18_observed_refuse.
+
+Example C18_observed_refuse_nonvacuous :
+  check_C18 (CRefuse 3 3 [Some 2; Some 0; Some 1]%nat true) = true /\
+  check_C18 (CRefuse 3 3 [Some 0; Some 0; Some 1]%nat false) = true.
+Proof. exact accepted_refuse_instance. Qed.
+Print Assumptions C18_observed_refuse_nonvacuous.
+
+(* no accepted rotation since the last clear_rotation(): n, corner points and values are compared exactly
+   with the original field *)
+Theorem C18_check_cleared_sound : forall pmin pmax n nv perm vals ops obs_n obs_pmin obs_pmax obs_vals,
+  check_C18 (CRot pmin pmax n nv perm vals ops obs_n obs_pmin obs_pmax obs_vals) = true ->
+  last_rot ops None = None ->
+  length vals = (ncells n * nv)%nat /\ length obs_vals = (ncells obs_n * nv)%nat /\
+  obs_n = n /\ veq pmin obs_pmin /\ veq pmax obs_pmax /\
+  Forall2 Qeq (fld_list nv (orig_of pmin pmax n nv vals)) obs_vals.
+Proof. exact check_cleared_sound. Qed.
+Print Assumptions C18_check_cleared_sound.
+
+(* ... and the observed value list is the recorded input list, entry by entry *)
+Theorem C18_observed_cleared_values : forall pmin pmax n nv perm vals ops obs_n obs_pmin obs_pmax obs_vals,
+  check_C18 (CRot pmin pmax n nv perm vals ops obs_n obs_pmin obs_pmax obs_vals) = true ->
+  last_rot ops None = None ->
+  obs_n = n /\ veq pmin obs_pmin /\ veq pmax obs_pmax /\ Forall2 Qeq vals obs_vals.
+Proof. exact accepted_clear_values. Qed.
+Print Assumptions C18_observed_cleared_values.
+
+(* transfer of C18_clear_restores: the observation after any history ending with clear_rotation() *)
+Theorem C18_observed_clear_restores : forall pmin pmax n nv perm vals ops obs_n obs_pmin obs_pmax obs_vals,
+  check_C18 (CRot pmin pmax n nv perm vals (ops ++ [OClear]) obs_n obs_pmin obs_pmax obs_vals) = true ->
+  obs_n = n /\ veq pmin obs_pmin /\ veq pmax obs_pmax /\
+  Forall2 Qeq (fld_list nv (orig_of pmin pmax n nv vals)) obs_vals.
+Proof. exact accepted_clear_restores. Qed.
+Print Assumptions C18_observed_clear_restores.
+
+Example C18_observed_clear_restores_nonvacuous :
+  check_C18 (CRot (V3 0 0 0) (V3 2 1 1) (N3 2 1 1) 1 [0; 1; 2]%nat [1; 2]
+                  ([ORot (M3 (V3 0 (-1) 0) (V3 1 0 0) (V3 0 0 1)) None] ++ [OClear])
+                  (N3 2 1 1) (V3 0 0 0) (V3 2 1 1) [1; 2]) = true.
+Proof. exact accepted_clear_instance. Qed.
+Print Assumptions C18_observed_clear_restores_nonvacuous.
+
+(* the state the checker compares a rotated observation with: accumulated matrix of the accepted calls, field
+   F(original, that matrix) at the observed resolution (explicit n: taken over literally; default: n_adm) *)
+Theorem C18_check_rotated_state : forall pmin pmax n nv perm vals ops obs_n obs_pmin obs_pmax obs_vals nopt,
+  check_C18 (CRot pmin pmax n nv perm vals ops obs_n obs_pmin obs_pmax obs_vals) = true ->
+  last_rot ops None = Some nopt ->
+  let orig := orig_of pmin pmax n nv vals in
+  let R := acc_rot Check_C18.rnd mid ops in
+  match nopt with Some ne => ne = obs_n | None => n_adm Check_C18.rnd n_slack R orig obs_n = true end /\
+  run Check_C18.rnd nv perm orig (fun _ => obs_n) ops = St R (rotated_field Check_C18.rnd nv perm orig R obs_n).
+Proof. exact check_rotated_state. Qed.
+Print Assumptions C18_check_rotated_state.
+
+(* region within 1e-9 of the coordinate scale, every value entry within 1e-9 of the value scale of the model's
+   (band cells: alternatively of the zero fill / the value at the clamped point) *)
+Theorem C18_check_rotated_sound : forall pmin pmax n nv perm vals ops obs_n obs_pmin obs_pmax obs_vals nopt,
+  check_C18 (CRot pmin pmax n nv perm vals ops obs_n obs_pmin obs_pmax obs_vals) = true ->
+  last_rot ops None = Some nopt ->
+  let orig := orig_of pmin pmax n nv vals in
+  let R := acc_rot Check_C18.rnd mid ops in
+  length vals = (ncells n * nv)%nat /\ length obs_vals = (ncells obs_n * nv)%nat /\
+  vwithin (rel_tol * cscale_of pmin pmax) (new_pmin Check_C18.rnd R orig) obs_pmin /\
+  vwithin (rel_tol * cscale_of pmin pmax) (new_pmax Check_C18.rnd R orig) obs_pmax /\
+  match nopt with Some ne => ne = obs_n | None => n_adm Check_C18.rnd n_slack R orig obs_n = true end /\
+  forall i j k c, (i < n0 obs_n)%nat -> (j < n1 obs_n)%nat -> (k < n2 obs_n)%nat -> (c < nv)%nat ->
+    cell_rel nv perm orig R obs_n (rel_tol * vscale_of vals) i j k c
+             (arr_of_list obs_n nv obs_vals i j k c).
+Proof. exact check_rotated_sound. Qed.
+Print Assumptions C18_check_rotated_sound.
+
+(* transfer of C18_compose / C18_left_multiplication: the observation after a history ending with an accepted
+   rotate(M) is that of F(original, M * accumulated matrix of the earlier accepted calls) *)
+Theorem C18_observed_compose : forall pmin pmax n nv perm vals ops M nopt obs_n obs_pmin obs_pmax obs_vals,
+  op_accepted (ORot M nopt) = true ->
+  check_C18 (CRot pmin pmax n nv perm vals (ops ++ [ORot M nopt]) obs_n obs_pmin obs_pmax obs_vals) = true ->
+  let orig := orig_of pmin pmax n nv vals in
+  let R := mmul Check_C18.rnd M (acc_rot Check_C18.rnd mid ops) in
+  run Check_C18.rnd nv perm orig (fun _ => obs_n) (ops ++ [ORot M nopt])
+    = St R (rotated_field Check_C18.rnd nv perm orig R obs_n) /\
+  vwithin (rel_tol * cscale_of pmin pmax) (new_pmin Check_C18.rnd R orig) obs_pmin /\
+  vwithin (rel_tol * cscale_of pmin pmax) (new_pmax Check_C18.rnd R orig) obs_pmax /\
+  match nopt with Some ne => ne = obs_n | None => n_adm Check_C18.rnd n_slack R orig obs_n = true end /\
+  forall i j k c, (i < n0 obs_n)%nat -> (j < n1 obs_n)%nat -> (k < n2 obs_n)%nat -> (c < nv)%nat ->
+    cell_rel nv perm orig R obs_n (rel_tol * vscale_of vals) i j k c
+             (arr_of_list obs_n nv obs_vals i j k c).
+Proof. exact accepted_compose. Qed.
+Print Assumptions C18_observed_compose.
+
+Example C18_observed_compose_nonvacuous :
+  op_accepted (ORot (M3 (V3 0 (-1) 0) (V3 1 0 0) (V3 0 0 1)) (Some (N3 1 2 1))) = true /\
+  check_C18 (CRot (V3 0 0 0) (V3 2 1 1) (N3 2 1 1) 1 [0; 1; 2]%nat [1; 2]
+                  ([ORefused] ++ [ORot (M3 (V3 0 (-1) 0) (V3 1 0 0) (V3 0 0 1)) (Some (N3 1 2 1))])
+                  (N3 1 2 1) (V3 (1 # 2) (-1 # 2) 0) (V3 (3 # 2) (3 # 2) 1) [1; 2]) = true.
+Proof. exact accepted_compose_instance. Qed.
+Print Assumptions C18_observed_compose_nonvacuous.
+
+(* transfer of C18_outside_zero: observed entries of cells whose back-rotated centre is outside the
+   interpolator's box (and off the 1e-6-cell band around its faces) vanish up to the value tolerance *)
+Theorem C18_observed_outside_zero : forall pmin pmax n nv perm vals ops obs_n obs_pmin obs_pmax obs_vals nopt i j k c,
+  check_C18 (CRot pmin pmax n nv perm vals ops obs_n obs_pmin obs_pmax obs_vals) = true ->
+  last_rot ops None = Some nopt ->
+  let orig := orig_of pmin pmax n nv vals in
+  let R := acc_rot Check_C18.rnd mid ops in
+  let g := grids Check_C18.rnd orig in
+  let p := back_pos Check_C18.rnd orig R obs_n i j k in
+  (i < n0 obs_n)%nat -> (j < n1 obs_n)%nat -> (k < n2 obs_n)%nat -> (c < nv)%nat ->
+  (vx p < hd 0 (fst (fst g)) \/ last (fst (fst g)) 0 < vx p) \/
+  (vy p < hd 0 (snd (fst g)) \/ last (snd (fst g)) 0 < vy p) \/
+  (vz p < hd 0 (snd g) \/ last (snd g) 0 < vz p) ->
+  in_band orig p = false ->
+  Qabs (arr_of_list obs_n nv obs_vals i j k c) <= rel_tol * vscale_of vals.
+Proof. exact accepted_outside_zero. Qed.
+Print Assumptions C18_observed_outside_zero.
+
+Example C18_observed_outside_zero_nonvacuous :
+  check_C18 (CRot (V3 0 0 0) (V3 2 2 1) (N3 2 2 1) 1 [0; 1; 2]%nat [1; 2; 3; 4]
+                  [ORot ex_R (Some (N3 4 4 1))] (N3 4 4 1) ex_pmin ex_pmax ex_obs) = true /\
+  last_rot [ORot ex_R (Some (N3 4 4 1))] None = Some (Some (N3 4 4 1)) /\
+  (let p := back_pos Check_C18.rnd ex_orig (acc_rot Check_C18.rnd mid [ORot ex_R (Some (N3 4 4 1))]) (N3 4 4 1) 0 0 0 in
+   vx p < hd 0 (fst (fst (grids Check_C18.rnd ex_orig))) /\ in_band ex_orig p = false).
+Proof. exact accepted_outside_zero_instance. Qed.
+Print Assumptions C18_observed_outside_zero_nonvacuous.
+
+(* transfer of C18_refused_steps_erasable: the verdict on an observation is the verdict on the same observation
+   for the history of the accepted calls only *)
+Theorem C18_observed_refused_erasable : forall pmin pmax n nv perm vals ops obs_n obs_pmin obs_pmax obs_vals,
+  check_C18 (CRot pmin pmax n nv perm vals ops obs_n obs_pmin obs_pmax obs_vals)
+  = check_C18 (CRot pmin pmax n nv perm vals (filter op_accepted ops) obs_n obs_pmin obs_pmax obs_vals).
+Proof. exact accepted_refused_erasable. Qed.
+Print Assumptions C18_observed_refused_erasable.
+
+(* transfer of C18_n_adm_is_round: an observed default resolution is a nearest integer of E / (L a), up to 1e-6,
+   whenever the cube root a is rational *)
+Theorem C18_observed_default_n : forall pmin pmax n nv perm vals ops obs_n obs_pmin obs_pmax obs_vals a,
+  check_C18 (CRot pmin pmax n nv perm vals ops obs_n obs_pmin obs_pmax obs_vals) = true ->
+  last_rot ops None = Some None ->
+  let orig := orig_of pmin pmax n nv vals in
+  let R := acc_rot Check_C18.rnd mid ops in
+  let L := mabs_apply Check_C18.rnd R (cellv orig) in
+  let E := vscale 2 (new_half Check_C18.rnd R orig) in
+  0 < a -> cube a * vprod L == vprod (cellv orig) -> 0 < vprod L ->
+  0 < vx L -> 0 < vy L -> 0 < vz L -> 0 <= vx E -> 0 <= vy E -> 0 <= vz E ->
+  (qnat (n0 obs_n) - (1 # 2) - n_slack <= vx E / (vx L * a) /\ vx E / (vx L * a) <= qnat (n0 obs_n) + (1 # 2) + n_slack) /\
+  (qnat (n1 obs_n) - (1 # 2) - n_slack <= vy E / (vy L * a) /\ vy E / (vy L * a) <= qnat (n1 obs_n) + (1 # 2) + n_slack) /\
+  (qnat (n2 obs_n) - (1 # 2) - n_slack <= vz E / (vz L * a) /\ vz E / (vz L * a) <= qnat (n2 obs_n) + (1 # 2) + n_slack).
+Proof. exact accepted_default_n. Qed.
+Print Assumptions C18_observed_default_n.
+
+Example C18_observed_default_n_nonvacuous :
+  let Rz := M3 (V3 0 (-1) 0) (V3 1 0 0) (V3 0 0 1) in
+  let orig := orig_of (V3 0 0 0) (V3 2 1 1) (N3 2 1 1) 1 [1; 2] in
+  let L := mabs_apply Check_C18.rnd (acc_rot Check_C18.rnd mid [ORot Rz None]) (cellv orig) in
+  let E := vscale 2 (new_half Check_C18.rnd (acc_rot Check_C18.rnd mid [ORot Rz None]) orig) in
+  check_C18 (CRot (V3 0 0 0) (V3 2 1 1) (N3 2 1 1) 1 [0; 1; 2]%nat [1; 2] [ORot Rz None]
+                  (N3 1 2 1) (V3 (1 # 2) (-1 # 2) 0) (V3 (3 # 2) (3 # 2) 1) [1; 2]) = true /\
+  last_rot [ORot Rz None] None = Some None /\
+  0 < 1 /\ cube 1 * vprod L == vprod (cellv orig) /\ 0 < vprod L /\
+  0 < vx L /\ 0 < vy L /\ 0 < vz L /\ 0 <= vx E /\ 0 <= vy E /\ 0 <= vz E.
+Proof. exact accepted_default_n_instance. Qed.
+Print Assumptions C18_observed_default_n_nonvacuous.
